@@ -93,9 +93,43 @@ func runC19(p *core.Prog, r *core.Report) {
 		r.Fail("C19-R1", "anchor fields", "-", "cannot identify wrapped writer / size (via Size()) / status channel (via Status())")
 		return
 	}
+	// Size() is the total itself on every path (not the total minus what a buffering writer has not flushed, say): what
+	// Size() says and what is sent on the channel are the same number
+	if fn := p.Method("util/ioutil", "ProgressWriter", "Size"); fn != nil {
+		okSize, whySize := true, ""
+		for _, ret := range sx.Returns(fn) {
+			for _, lf := range leaves(ret.Results[0]) {
+				u, isLd := lf.(*ssa.UnOp)
+				fa, isFA := ssa.Value(nil), false
+				if isLd {
+					_, isFA = u.X.(*ssa.FieldAddr)
+					fa = u.X
+				}
+				if !isLd || !isFA || sx.FieldOf(fa.(*ssa.FieldAddr)) != size {
+					okSize, whySize = false, "Size() returns "+short(sx.ValPath(lf))+" at "+p.Pos(ret.Pos())+", not the running total"
+				}
+			}
+		}
+		r.Check(okSize, "C19-R1", "Size() returns the running total itself", p.FuncPos(fn), "every return is a load of the size field", whySize+": Size() and the values on the status channel disagree")
+	}
+	// a new writer starts at zero: the constructor leaves the total alone or sets the constant 0 (not the wrapped writer's
+	// current offset)
+	for _, ref := range sx.FieldRefs(p.PkgFuncs("util/ioutil"), size) {
+		fa, ok := ref.Instr.(*ssa.FieldAddr)
+		if !ok || !sx.IsFreshObject(ref.Base) {
+			continue
+		}
+		for _, a := range sx.Accesses(fa) {
+			if a.Kind != "write" {
+				continue
+			}
+			k, isC := sx.ConstInt(a.Val)
+			r.Check(isC && k == 0, "C19-R1", "a new ProgressWriter starts at 0 ("+fnName(ref.Fn)+")", p.Pos(a.Instr.Pos()), "size initialised with the constant 0", "the constructor initialises the total with "+short(sx.ValPath(a.Val))+": Size() and the progress values are shifted away from the sum of what the wrapped writer reported")
+		}
+	}
 	// other fields that hold the same wrapped writer seen through another interface (`pw.sw, _ = w.(io.StringWriter)`): every
 	// assignment of such a field is on a freshly built ProgressWriter and stores a type assertion of the very value stored in wr
-	wrNames := map[string]bool{"field:ProgressWriter." + wr.Name(): true}
+	wrNames := map[string]bool{fieldKey(p, "util/ioutil", wr): true}
 	for _, f := range structFields(n) {
 		if f == wr || !types.IsInterface(f.Type()) {
 			continue
@@ -137,7 +171,7 @@ func runC19(p *core.Prog, r *core.Report) {
 			}
 		}
 		if writes > 0 && okAll {
-			wrNames["field:ProgressWriter."+f.Name()] = true
+			wrNames[fieldKey(p, "util/ioutil", f)] = true
 		}
 	}
 	isWrapped := func(v ssa.Value) bool {
@@ -172,7 +206,7 @@ func runC19(p *core.Prog, r *core.Report) {
 				continue
 			}
 			b, isB := a.Val.(*ssa.BinOp)
-			ok := isB && b.Op == token.ADD && sx.Origins(b.X)["field:ProgressWriter."+size.Name()]
+			ok := isB && b.Op == token.ADD && sx.Origins(b.X)[fieldKey(p, "util/ioutil", size)]
 			r.Check(ok, "C19-R1", "size written in "+fnName(ref.Fn), p.Pos(a.Instr.Pos()), "size = size + n", "size is assigned "+sx.ValPath(a.Val)+", not size + n")
 			if ok {
 				adders[ref.Fn] = true
@@ -396,7 +430,7 @@ func runC19(p *core.Prog, r *core.Report) {
 							continue
 						}
 						// value sent = size read after the addition
-						okv := sx.Origins(st.Send)["field:ProgressWriter."+size.Name()]
+						okv := sx.Origins(st.Send)[fieldKey(p, "util/ioutil", size)]
 						if okv {
 							// a store to size must precede on every path within f (the adder)
 							cut := sx.Cut{Instrs: map[ssa.Instruction]bool{}}
@@ -439,7 +473,7 @@ func runC19(p *core.Prog, r *core.Report) {
 	for _, f := range fns {
 		sx.Instrs(f, func(in ssa.Instruction) {
 			if c, ok := in.(*ssa.Call); ok {
-				if b, ok := c.Call.Value.(*ssa.Builtin); ok && b.Name() == "close" && sx.Origins(c.Call.Args[0])["field:ProgressWriter."+status.Name()] {
+				if b, ok := c.Call.Value.(*ssa.Builtin); ok && b.Name() == "close" && sx.Origins(c.Call.Args[0])[fieldKey(p, "util/ioutil", status)] {
 					if f == cl {
 						closes = append(closes, in)
 					} else {
@@ -459,7 +493,7 @@ func runC19(p *core.Prog, r *core.Report) {
 	// non-blocking offer of it (a receiver was already waiting and has the total)
 	delivered := sx.Cut{Instrs: map[ssa.Instruction]bool{}, Edges: map[sx.Edge]bool{}}
 	for _, s := range sends {
-		if sx.Origins(s.Chan)["field:ProgressWriter."+status.Name()] && sx.Origins(s.X)["field:ProgressWriter."+size.Name()] {
+		if sx.Origins(s.Chan)[fieldKey(p, "util/ioutil", status)] && sx.Origins(s.X)[fieldKey(p, "util/ioutil", size)] {
 			delivered.Instrs[s] = true
 		}
 	}
@@ -473,7 +507,7 @@ func runC19(p *core.Prog, r *core.Report) {
 			return
 		}
 		for _, a := range arms {
-			if a.State != nil && a.State.Dir == types.SendOnly && sx.Origins(a.State.Chan)["field:ProgressWriter."+status.Name()] && sx.Origins(a.State.Send)["field:ProgressWriter."+size.Name()] {
+			if a.State != nil && a.State.Dir == types.SendOnly && sx.Origins(a.State.Chan)[fieldKey(p, "util/ioutil", status)] && sx.Origins(a.State.Send)[fieldKey(p, "util/ioutil", size)] {
 				delivered.Edges[a.Edge] = true
 			}
 		}
@@ -531,4 +565,32 @@ func runC19(p *core.Prog, r *core.Report) {
 			}
 		}
 	}
+}
+
+// fieldKey: the Origins key of a field — "field:<owner>.<name>" with the struct type that declares it (the writer
+// itself, or a private struct embedded in it).
+func fieldKey(p *core.Prog, rel string, f *types.Var) string {
+	owner := "ProgressWriter"
+	if pk := p.Pkgs[rel]; pk != nil && f != nil {
+		sc := pk.Types.Scope()
+		for _, nm := range sc.Names() {
+			tn, ok := sc.Lookup(nm).(*types.TypeName)
+			if !ok {
+				continue
+			}
+			st, ok := tn.Type().Underlying().(*types.Struct)
+			if !ok {
+				continue
+			}
+			for i := 0; i < st.NumFields(); i++ {
+				if st.Field(i) == f {
+					owner = nm
+				}
+			}
+		}
+	}
+	if f == nil {
+		return "field:" + owner + ".?"
+	}
+	return "field:" + owner + "." + f.Name()
 }
